@@ -13,9 +13,8 @@ __all__ = [
     'split',
 ]
 
-import operator as op
 from collections import deque
-from itertools import tee, compress
+from itertools import tee
 from typing import Tuple, Iterable, Iterator, Callable, Union, Any
 
 from .typing import T
@@ -70,11 +69,15 @@ def split(
         If given as iterator, it must not be advanced directly later!
     :return: Tuple of two iterators: (where_true, where_false)
     """
+    # Each value travels together with the decision on its side, taken
+    # once: a condition object's truth value may change later, and a
+    # condition which fails for one value must not make the following
+    # ones end up with each other's decisions
+    pairs: Iterator[Tuple[T, bool]]
     if callable(condition):
-        iterable, ci = tee(iterable)
-        condition = map(condition, ci)
-    i1, i2 = tee(iterable)
-    # Decide the side of each value once: a condition object's truth value
-    # may change between the moments the two iterators look at it
-    c1, c2 = tee(map(bool, condition))
-    return compress(i1, c1), compress(i2, map(op.not_, c2))
+        check = condition
+        pairs = map(lambda x: (x, bool(check(x))), iterable)
+    else:
+        pairs = map(lambda x, c: (x, bool(c)), iterable, condition)
+    p1, p2 = tee(pairs)
+    return (x for x, c in p1 if c), (x for x, c in p2 if not c)
